@@ -20,7 +20,7 @@ def models(tier, seed):
 
 
 def required_tags(tier):
-    return ['w:const', 'w:cos', 'w:sin', 'w:rect', 'w:tri', 'w:saw', 'A<0', 'off!=0', 'phase>turn', 'phase<0', 'lookup']
+    return ['w:const', 'w:cos', 'w:sin', 'w:rect', 'w:tri', 'w:saw', 'A<0', 'off!=0', 'phase>turn', 'phase<0', 'lookup', 'offset_sweep']
 
 
 def replay(case, ctx):
@@ -111,5 +111,25 @@ def replay(case, ctx):
                     bad += 1
             if bad > 5:
                 break
+    # (iii) a sweep of the offset with type, amplitude, phase and period unchanged (Fourier!Mean: the order-0 harmonic is the offset, the
+    # others do not depend on it): what was analysed before must not matter
+    phi, T = phases[3], 1.0
+    k1, coef1, q1 = harm[1]
+    H1 = float(rat(coef1)) * math.pi ** (-k1) * cmath.exp(1j * (q1 * math.pi / 2 + phi))
+    for off2 in (off, off + 1.5, -off - 0.75, off):
+        tg.add('offset_sweep')
+        ctxs = f'offset sweep: phi={phi} T={T} offset={off2}'
+        got, e = call(lambda: pf.fourier_series(cls(period=T, amplitude=A, phase=phi, offset=off2)))
+        if e is not None:
+            mism.append({'what': 'fourier_series', 'got': repr(e), 'want': 'coefficients', 'signature': f'exc:fourier_series:{exc_sig(e)}', 'detail': ctxs})
+            continue
+        fs = got
+        want0 = A if w == 'const' else off2
+        for name, f, want in (('amplitude(0)*cos(phase(0))', lambda: fs.amplitude(0) * math.cos(fs.phase(0)), want0),
+                              ('c(1)', lambda: fs.c(1), H1 / 2)):
+            got, e = call(f)
+            r.observations += 1
+            if e is not None or not close(got, want, abs(A) + abs(off2), rtol=1e-9, atol_rel=1e-11):
+                mism.append({'what': f'{w} {name} after other offsets', 'got': repr(e or got), 'want': repr(want), 'signature': f'harmonic0:{w}:sweep', 'detail': ctxs})
     r.tags = sorted(tg)
     return r
